@@ -1237,6 +1237,14 @@ func ruleC10(c *Ctx) {
 	c.rule("C10-R3", "kind separation: root structs carry a tagged XMLName (namespace, local name), pairwise distinct except Response/UnverifiedBaseResponse; each validator decodes its own kind")
 	c.rule("C10-R4", "sibling agreement: the two logout validators have the same path skeleton (skip handling, error discipline, flag rule)")
 	decodedImmutable(c, "C10-R6")
+	c.rule("C10-R7", "the fields the logout checks read are decoded from where the schema puts them: LogoutRequest / LogoutResponse ID, Version, Destination, InResponseTo as attributes, Issuer, Status, NameID as child elements with these names and Go types (rows of the C08-R1 schema table) — a Destination that is never decoded is empty, and an empty Destination passes")
+	var logoutSchema []typeSpec
+	for _, ts := range schemaTable {
+		if ts.Type == "types.LogoutResponse" || ts.Type == "LogoutRequest" || ts.Type == "types.Status" || ts.Type == "types.StatusCode" || ts.Type == "types.Issuer" {
+			logoutSchema = append(logoutSchema, ts)
+		}
+	}
+	checkSchemaTableF(c, "C10-R7", logoutSchema, false, 10)
 	lr := c.kernel("(*SAMLServiceProvider).ValidateDecodedLogoutResponse", "*")
 	guardInventory(c, "C10-R1", lr, logoutRows("LR", "ServiceProviderSLOURL", true), nil)
 	lq := c.kernel("(*SAMLServiceProvider).ValidateDecodedLogoutRequest", "*")
